@@ -38,9 +38,13 @@ def plan(tier, seed):
     # the complete small space once more under the naming that makes siblings string prefixes of each other
     shards += [dict(s, naming="adversarial", bound=s["bound"] + " naming=adversarial")
                for s in plan_graph_shards("A", n_max=4, chunk=8 if tier == "quick" else 4)]
+    from .c02 import pair_cases
+
+    for lo in range(0, len(pair_cases()), 120):
+        shards.append({"part": "scan", "lo": lo, "hi": lo + 120, "bound": "scan-level monotonicity (second import statement added to a file)"})
     return {
         "shards": shards,
-        "require_nonzero": ["duality", "negation", "decomposition", "alias", "monotonic", "negation:PASS/FAIL", "negation:FAIL/PASS"],
+        "require_nonzero": ["scan-monotonic", "duality", "negation", "decomposition", "alias", "monotonic", "negation:PASS/FAIL", "negation:FAIL/PASS", "regex-law"],
     }
 
 
@@ -102,6 +106,34 @@ def check_graph(ns, I, seed, res, mono_pairs):
                             res.nontrivial += 1
                     if not pred(o):
                         viol.append((name, [spec_to_json(s) for s in specs], o, None))
+    # the same laws with one side given by a regex (which may also match the other side)
+    import re as _re
+
+    rx = [".*", _re.escape(ns[0]) + r"\..*"]
+    for a in cand:
+        rx += ["^" + _re.escape(a) + "$", _re.escape(a)]
+    for a in cand:
+        for R in dict.fromkeys(rx):
+            matches = [n for n in ns if _re.match(R, n)]
+            if not matches:
+                continue
+            for sk in KINDS:
+                laws = [("duality", [sp(verb, True, False, sk, (a,), "regex", (R,)), sp(verb, False, False, "regex", (R,), sk, (a,))],
+                         lambda o: o[0] == o[1]) for verb in ("should", "should_not")]
+                if len(matches) == 1:
+                    for imp in (True, False):
+                        laws.append(("negation", [sp("should", imp, False, sk, (a,), "regex", (R,)), sp("should_not", imp, False, sk, (a,), "regex", (R,))],
+                                     lambda o: {o[0], o[1]} == {"PASS", "FAIL"} or (o[0] == o[1] and o[0].startswith("ERR"))))
+                for name, specs, pred in laws:
+                    o = [out(x, ev, seed, cache) for x in specs]
+                    if res is not None:
+                        res.traces += 1
+                        res.stats[name] += 1
+                        res.stats["regex-law"] += 1
+                        if I:
+                            res.nontrivial += 1
+                    if not pred(o):
+                        viol.append((name, [spec_to_json(x) for x in specs], o, None))
     for s in cand:
         for sk in KINDS:
             for imp in (True, False):
@@ -142,8 +174,68 @@ def check_graph(ns, I, seed, res, mono_pairs):
     return viol
 
 
+def scan_monotonic(shard, res, only=None):
+    """Monotonicity at the level of source files: adding a second import statement to a file never
+    removes an import the first statement produced, hence never turns the passing 'should import'
+    rule into a failing one nor the failing 'should not import' rule into a passing one."""
+    import os
+
+    from pytestarch import Rule
+
+    from ..common import import_edges, remove_scratch, scratch_dir, write_tree
+    from ..scan import scan
+    from .c02 import SKELETON, pair_cases
+
+    base = scratch_dir(f"c12-scan-{shard.get('lo', 0)}")
+    viol = []
+    try:
+        write_tree(base, SKELETON)
+        root = os.path.join(base, "top")
+        for rel, imod, fid, src, must in pair_cases()[shard.get("lo", 0) : shard.get("hi")]:
+            key = [rel, fid, src]
+            if only is not None and only != key:
+                continue
+            first = src.split("\n")[0]
+            t1 = first.split()[1]
+            path = os.path.join(base, rel)
+            try:
+                with open(path, "w") as f:
+                    f.write(first + "\n")
+                ev1 = scan(root, root)
+                with open(path, "w") as f:
+                    f.write(src + "\n")
+                ev2 = scan(root, root)
+            finally:
+                with open(path, "w") as f:
+                    f.write("")
+            e1, e2 = import_edges(ev1), import_edges(ev2)
+            res.states += 1
+            res.transitions += 2
+            res.traces += 1
+            res.nontrivial += 1
+            res.stats["monotonic"] += 1
+            res.stats["scan-monotonic"] += 1
+            if not e1 <= e2:
+                viol.append(("monotonic", {"part": "scan", "key": key}, sorted(map(list, e1)), sorted(map(list, e2))))
+                continue
+            for verb, bad in (("should", ("PASS", "FAIL")), ("should_not", ("FAIL", "PASS"))):
+                outs = []
+                for ev in (ev1, ev2):
+                    r = getattr(Rule().modules_that().are_named(imod), verb)().import_modules_that().are_named(t1)
+                    outs.append(run_rule(r, ev)[0])
+                if tuple(outs) == bad:
+                    viol.append(("monotonic", {"part": "scan", "key": key, "rule": f"{imod} {verb} import {t1}"}, "verdict kept", outs))
+    finally:
+        remove_scratch(base)
+    return viol
+
+
 def run_shard(shard, tier, seed):
     res = Result(shard["bound"])
+    if shard.get("part") == "scan":
+        for kind, case, exp, got in scan_monotonic(shard, res):
+            res.violation(kind, case, exp, got)
+        return res
     for ns, I in shard_graphs(shard, seed):
         ns, I = renamed_graph(ns, I, shard.get("naming", "identity"))
         res.states += 1
@@ -158,6 +250,9 @@ def run_shard(shard, tier, seed):
 
 
 def _check_case(case):
+    if case.get("part") == "scan":
+        v = scan_monotonic({}, Result(), only=case["key"])
+        return (v[0][0], v[0][2], v[0][3]) if v else None
     ns, I = case["modules"], [tuple(e) for e in case["imports"]]
     pairs = [tuple(case["added_edge"])] if case.get("added_edge") else []
     want = [tuple(r["subj"]) for r in case["rules"]]
@@ -168,6 +263,8 @@ def _check_case(case):
 
 
 def minimise(v):
+    if v["case"].get("part") == "scan":
+        return dict(v, signature=f"monotonic:scan:{v['case']['key'][1]}")
     case = dict(v["case"])
     changed = True
     while changed:
